@@ -506,6 +506,7 @@ def correspondence(ctx, verdict, pr):
     orc_new, known, nevents, nint = 0, 0, 0, 0
     tags = []
     qlines, qexp = [], {}
+    rep_L = rep_S = 0
     lstats = dict(valve_call_scenarios=0, calls=0, compared_with_model=0, longest_wait_s=0, by_threshold_crossed={})
     for l in lines:                      # the real valve called directly (long-backlog families)
         cid = l.split()[1]
@@ -526,9 +527,10 @@ def correspondence(ctx, verdict, pr):
         for sig, what, det in orc:
             small = l
             if not sig.startswith('burst-exceeds'):
-                if orc_new >= 2:
+                if rep_L >= 1:            # one report from the valve alone; the next come from real sessions
                     orc_new += 1
                     continue
+                rep_L += 1
                 small = shrink_L(ctx, l, sig)
             r = verdict.oracle_failure(sig, 'C19 oracle (LimitedValve.%sWait called directly by %d goroutine(s)): %s' % (m['dir'], len(m['callers']), what),
                                        dict(line=small, original_line=l if small != l else None, detail=det, implementation=impl[cid][:2000],
@@ -567,9 +569,10 @@ def correspondence(ctx, verdict, pr):
         for sig, what, det in orc:
             small = l
             if not sig.startswith('burst-exceeds'):
-                if orc_new >= 2:          # report a couple, count the rest
+                if rep_S >= 2:            # report a couple, count the rest
                     orc_new += 1
                     continue
+                rep_S += 1
                 small = shrink(ctx, l, m, sig)
             r = verdict.oracle_failure(sig, 'C19 oracle: ' + what, dict(line=small, original_line=l if small != l else None, detail=det,
                                        implementation=impl[cid][:2000], how='python3 tools/check.py C19 --replay <this file>'))
